@@ -412,6 +412,8 @@ pub fn mk_app(cfg: &Cfg, role: Role) -> App {
         group = group.set(server);
     }
     app.add_plugins(group);
+    // (the crate is built with its `client_diagnostics` feature: the plugin group then contains
+    // `ClientDiagnosticsPlugin`, which keeps replication statistics and samples them every frame)
     app.insert_resource(TimeUpdateStrategy::ManualDuration(Duration::from_millis(FRAME_MS)))
         .init_resource::<Log>();
 
